@@ -104,6 +104,10 @@ def run(R, tier):
             x = rng.choice(pool[9:] or pool); y = rng.choice(pool[9:] or pool)
         c = rng.choice(ints)
         op = rng.choice(['add', 'sub', 'mul', 'mul', 'neg', 'addz', 'mulz', 'eq', 'eqz', 'bool', 'pow', 'cmp'])
+        if it < 12:
+            # powers of single monomials with several distinct variables (deterministic part): (3xy)^2, (x y y z)^3, ...
+            x = P([[rng.choice((2, 3, -1))] + sorted(rng.choice(NAMES) for _ in range(2 + it % 3))]) + P(0)
+            op = 'pow'
         r = None
         snap = (copy.deepcopy(x.args), copy.deepcopy(y.args), x, y)
         R.count('P.' + op)
